@@ -181,7 +181,7 @@ def run(ctx, only_ids=None):
     racedir = ctx.work / "race"
     racedir.mkdir(exist_ok=True)
     ctx.drive("c14", ctx.work / "cases.ndjson", obs, race=True, timeout=2400,
-              args=["-reps", ctx.pick(2, 6)], env={"GORACE": f"log_path={racedir}/r halt_on_error=0"})
+              args=["-reps", ctx.pick(2, 6)], env={"GORACE": f"log_path={racedir}/r halt_on_error=0 exitcode=0"})
     allobs = rig.read_ndjson(obs)
     races = race_records(racedir)
     allobs += races
@@ -202,11 +202,11 @@ def run(ctx, only_ids=None):
         co = ctx.work / "confirm_obs.ndjson"
         racedir2 = ctx.work / "race2"
         racedir2.mkdir(exist_ok=True)
-        ctx.drive("c14", cc, co, race=True, timeout=2400, args=["-reps", 10], env={"GORACE": f"log_path={racedir2}/r halt_on_error=0"})
+        ctx.drive("c14", cc, co, race=True, timeout=2400, args=["-reps", 10], env={"GORACE": f"log_path={racedir2}/r halt_on_error=0 exitcode=0"})
         o2 = rig.read_ndjson(co) + race_records(racedir2)
         if any(b["obs"]["kind"] == "race" for b in bads) and not ids:
             # a race with no failing program: re-run everything once
-            ctx.drive("c14", ctx.work / "cases.ndjson", co, race=True, timeout=2400, args=["-reps", 3], env={"GORACE": f"log_path={racedir2}/r halt_on_error=0"})
+            ctx.drive("c14", ctx.work / "cases.ndjson", co, race=True, timeout=2400, args=["-reps", 3], env={"GORACE": f"log_path={racedir2}/r halt_on_error=0 exitcode=0"})
             o2 = rig.read_ndjson(co) + race_records(racedir2)
         rig.write_ndjson(co, o2)
         b2, _ = rig.trace_judge(ctx, "trace_confirm", FAMS, "Trace_ConcGo", co)
